@@ -202,10 +202,11 @@ Proof. destruct a as [p pay blinder]. intros (Ip & WB & WP) (v & prog & EP). cbn
       apply wpl_ok; [change (sw_len_min cfg_bech) with 2%nat; change (sw_len_max cfg_bech) with 40%nat; lia|].
       change (sw_len_v0_a cfg_bech) with 20%nat; change (sw_len_v0_b cfg_bech) with 32%nat. intros E. destruct (V0 E); lia. }
   assert (FB : from_bech32 pkv (encode_segwit c h v data) bl p = AOk (mkAddr p (WitnessProgram v prog) blinder)).
-  { unfold from_bech32. destruct blinder as [b|]; cbn [bl] in *; rewrite DEC; [|reflexivity].
+  { assert (PLB : prog_len_bad prog = false) by (apply prog_len_ok; exact LP).
+    unfold from_bech32. destruct blinder as [b|]; cbn [bl] in *; rewrite DEC; [|unfold data; rewrite PLB; reflexivity].
     destruct WB as [Lb Pb]. unfold data. rewrite app_length. destruct (Nat.ltb_spec (length b + length prog) 33); [lia|].
     rewrite <- Lb. rewrite firstn_app, Nat.sub_diag, firstn_all, firstn_O, app_nil_r, Pb.
-    rewrite skipn_app, Nat.sub_diag, skipn_all. reflexivity. }
+    rewrite skipn_app, Nat.sub_diag, skipn_all. change ([] ++ skipn 0 prog) with prog. rewrite PLB. reflexivity. }
   assert (FP : find_prefix (encode_segwit c h v data) = h).
   { unfold find_prefix, encode_segwit. rewrite F1. set (w := (v :: bytes_to_fes data) ++ _).
     assert (Sw : sym_word w) by (apply Forall_app; split; [constructor; [exact V32|apply bytes_to_fes_sym]|apply checksum_syms_sym]).
